@@ -171,7 +171,7 @@ def charge_invariances(ctx):
 
     def field(a, mesh=None, v=valid):
         mesh = mesh2d(pmin, cell, n, dims) if mesh is None else mesh
-        return df.Field(mesh, nvdim=3, value=a, valid=v.copy(), vdims=labels, vdim_mapping=mapping)
+        return gen.via_history(None, df.Field(mesh, nvdim=3, value=a, valid=v.copy(), vdims=labels, vdim_mapping=mapping))
 
     if via_sel:
         # a slice of a 3-d field (the documented way to obtain a 2-d field)
@@ -274,7 +274,7 @@ def bergluescher_integer(ctx):
     valid = np.ones(tuple(n), bool)
     if masked:  # hide cells of the uniform background only
         valid = ~((r > R + 1.5 * cell.max()) & (rng.random(tuple(n)) < 0.5))
-    f = df.Field(mesh, nvdim=3, value=arr, valid=valid)
+    f = gen.via_history(None, df.Field(mesh, nvdim=3, value=arr, valid=valid))
     info = {"tool": "topological_charge", "method": "berg-luescher", "Q": Q, "polarity": pol,
             "helicity": hel, "n": n, "cell": cell, "radius_cells": Rc, "masked": masked}
     q = dft.topological_charge(f, method="berg-luescher")
@@ -349,7 +349,7 @@ def bloch_point(ctx):
         if np.min(np.linalg.norm(d * cell.max() / cell, axis=-1)) >= 0.05:
             break
     arr = unit(d) * 10.0 ** rng.uniform(-3, 3, size=(*n, 1))
-    f = df.Field(mesh, nvdim=3, value=arr)
+    f = gen.via_history(None, df.Field(mesh, nvdim=3, value=arr))
     fr = df.Field(mesh, nvdim=3, value=-arr)
     info = {"tool": "count_bps", "n": n, "cell": cell, "centre_index": idx, "dims": dnames}
     # quick tier: every direction for the hedgehog, one (rotating) direction reversed
